@@ -90,6 +90,7 @@ OpResult run_slot(const Scn &s, OpSpec &op, int slot, const char *opname, HangPo
 Verdict run_C18_cli(const Scn &s);
 Verdict run_C06_cli(const Scn &s);
 Verdict run_C02_cli(const Scn &s);
+Verdict run_C01_cli(const Scn &s);
 
 // ---- property registry
 typedef Verdict (*RunFn)(const Scn &);
